@@ -51,7 +51,27 @@ fn gen_family(rng: &mut Rng, tables: &[Table]) -> Family {
     let extra_sql = if extra { format!(" AND x.b > {}", k) } else { String::new() };
     let extra_ok = |r: &Vec<V>| !extra || vint(&r[2]).map_or(false, |b| b > k);
     let int = |i: i64| Canon::Int(i as i128);
-    match rng.below(7) {
+    match rng.below(8) {
+        7 => {
+            // semi join against a subquery that keeps only its first n values: the rewrite into a
+            // join must not lose ORDER BY / LIMIT (ties do not matter: equal values are one member)
+            let n = rng.range(0, 3) as usize;
+            let desc = rng.chance(1, 2);
+            let sub = format!("SELECT y.{} FROM {} AS y WHERE y.{} IS NOT NULL ORDER BY y.{}{} LIMIT {}", cy, ty.name, cy, cy, if desc { " DESC" } else { "" }, n);
+            let members = vec![
+                format!("SELECT x.id FROM {} WHERE x.{} IN ({}){}", fx, cx, sub, extra_sql),
+                format!("SELECT x.id FROM {} WHERE x.{} IN (SELECT d.v FROM (SELECT y.{} AS v FROM {} AS y WHERE y.{} IS NOT NULL ORDER BY y.{}{} LIMIT {}) AS d){}", fx, cx, cy, ty.name, cy, cy, if desc { " DESC" } else { "" }, n, extra_sql),
+                format!("SELECT x.id FROM {} WHERE{} x.{} IN ({})", fx, if extra { format!(" x.b > {} AND", k) } else { String::new() }, cx, sub),
+            ];
+            let mut vals: Vec<i64> = ty.rows.iter().filter_map(|ry| vint(&ry[iy])).collect();
+            vals.sort();
+            if desc {
+                vals.reverse();
+            }
+            vals.truncate(n);
+            let expected = tx.rows.iter().filter(|rx| vint(&rx[ix]).map_or(false, |v| vals.contains(&v)) && extra_ok(rx)).map(|rx| vec![int(vint(&rx[0]).unwrap())]).collect();
+            Family { name: "semi-join-limited-subquery", members, expected }
+        }
         4 => {
             // correlated NOT IN: for each x the subquery ranges over the y rows with y.b = x.b
             let members = vec![
